@@ -1303,6 +1303,24 @@ fn release(g: &mut Inner, tid: Tid, lock: LockId, mode: Mode) {
 			l.shared
 		);
 		let faulted = l.faulted;
+		// After recording it, let the misuse take the effect it has on a parking_lot lock, so
+		// that its consequences (another thread's hold wiped -> overlapping sections) are
+		// observable by the other monitors in this very execution:
+		//  * an exclusive unlock of a lock the caller does not own stores "unlocked": every
+		//    other holder (exclusive or shared) loses its hold;
+		//  * a shared unlock decrements the reader count: one other reader loses its hold;
+		//    on an exclusively held lock it releases nothing.
+		match eff_mode {
+			Mode::Excl => {
+				l.excl = None;
+				l.shared.clear();
+			}
+			Mode::Shared => {
+				if l.excl.is_none() && !l.shared.is_empty() {
+					l.shared.remove(0);
+				}
+			}
+		}
 		log(g, tid, EvKind::BadUnlock, lock, mode as u32);
 		// the violation is attributed by the property runners: C05 in fault-free runs, C12 rule
 		// R3 in fault runs.  Record under C05 with a flag in the rule when the lock was faulted.
